@@ -569,10 +569,10 @@ theorem tight2_step (ext : WExt) (flag : Bool) (g : Ghost2) (c : Call) (hc : Pla
       · refine ⟨rfl, hes, ⟨rfl, rfl, rfl, fun _ => hp, fun _ => rfl, fun _ hl => ?_⟩, fun _ => rfl⟩
         have hlen : raw.length = src.compressedSize.toNat := hx
         have hle : ¬ (if src.compressedSize ≥ src.uncompressedSize then src.compressedSize
-            else src.uncompressedSize) > ZIP64_BYTES_THR :=
+            else src.uncompressedSize) ≥ ZIP64_BYTES_THR :=
           of_decide_eq_false (show decide ((if src.compressedSize ≥ src.uncompressedSize then
-            src.compressedSize else src.uncompressedSize) > ZIP64_BYTES_THR) = false from hl)
-        have hb := toNat_le_of_not_gt hle
+            src.compressedSize else src.uncompressedSize) ≥ ZIP64_BYTES_THR) = false from hl)
+        have hb := toNat_le_of_not_gt (fun h => hle (UInt64.le_of_lt h))
         show raw.length < 4294967296 ∧ src.uncompressedSize.toNat < 4294967296
         rw [hlen]
         by_cases hge : src.compressedSize ≥ src.uncompressedSize
